@@ -1264,7 +1264,13 @@ def ncf2bpch(ncffile, outpath, verbose=0):
             if ncffile.noscale:
                 data[:] = vals
             else:
-                data[:] = vals / var.scale
+                # (a netCDF4 variable has a python attribute scale of its
+                # own - the auto-scaling switch - that hides the tracer's)
+                if hasattr(var, 'getncattr'):
+                    scale = var.getncattr('scale')
+                else:
+                    scale = var.scale
+                data[:] = vals / scale
         time_data.tofile(outfile)
 
     outfile.flush()
